@@ -42,12 +42,26 @@ var addDecls = []addDecl{
 	/* 5 */ {"obj:Car", `Object[{name => 'Car', attributes => {a => Integer}}]`},
 	/* 6 */ {"obj:Foo::Bus", `Object[{name => 'Foo::Bus', attributes => {z => String}}]`},
 	/* 7 */ {"obj:Foo::Car", `Object[{name => 'Foo::Car', attributes => {a => Integer}}]`},
+	// Declarations that px.AddTypes rejects with a reported error while the members of the set are being resolved (the
+	// member under the key Broken): an Object that inherits a non-Object, an attribute of an unknown kind, an override
+	// that is not marked, in a nested set.  Nothing of the set gets bound; the context must come out of it as it went in.
+	/* 8 */ {"BadZoo", tsSrc("Zoo", "1.0.0", `Cage => Object[attributes => {size => Integer}], Keeper => Object[attributes => {name => String}], Broken => Object[parent => Integer, attributes => {a => Integer}]`)},
+	/* 9 */ {"BadZoo'", tsSrc("Zoo", "1.0.0", `Cage => Integer[1,2], Sub => TypeSet[{version => '1.0.0', pcore_version => '1.0.0', types => { X => Object[attributes => {b => String}], Broken => Object[parent => Integer] }}], Keeper => String`)},
+	// the same name, nothing broken
+	/* 10 */ {"Zoo", tsSrc("Zoo", "1.0.0", `Cage => Object[attributes => {size => Integer}], Keeper => Object[attributes => {name => String}]`)},
+	// the names of declaration 0, the broken member in the middle
+	/* 11 */ {"BadFoo", tsSrc("Foo", "1.0.0", `Zed => Integer[1,2], Broken => Object[attributes => {a => {type => Integer, kind => bogus}}], Bus => Object[attributes => {a => Integer}]`)},
+	/* 12 */ {"BadA", tsSrc("A", "1.0.0", `B => Object[attributes => {size => Integer}], Broken => Object[parent => B, attributes => {size => String}], Car => String`)},
 }
+
+// the key under which the declarations above hold the member whose resolution is rejected
+const brokenKey = "Broken"
 
 const (
 	mPlain = iota
 	mObject
 	mSet
+	mBroken // an object type whose Resolve is rejected
 )
 
 // what px.AddTypes can see of a type: its name, what it is, its members (with the keys of Types()); plus the
@@ -144,6 +158,9 @@ func structureOf(t px.Type) *mtypeT {
 			x.Types().EachPair(func(k, v px.Value) { m.members = append(m.members, build(k.String(), v.(px.Type))) })
 		case px.ObjectType:
 			m.kind = mObject
+			if key == brokenKey {
+				m.kind = mBroken
+			}
 		default:
 			m.kind = mPlain
 		}
@@ -174,8 +191,16 @@ func setupAddDecls(c px.Context) {
 			l := px.NewParentedLoader(px.NewDependencyLoader(nil))
 			c.DoWithLoader(l, func() {
 				t := c.ParseType(addDecls[d].src)
-				px.AddTypes(c, t)
+				rejected := func() (r interface{}) {
+					defer func() { r = recover() }()
+					px.AddTypes(c, t)
+					return nil
+				}()
+				// (a rejected type set shows its members all the same: typeSet.Resolve has them from InitFromHash)
 				st[i] = structureOf(t)
+				if (rejected != nil) != (st[i].firstBroken() != nil) {
+					panic(fmt.Sprintf("harness: declaration %s: rejected=%v, but broken member=%v", addDecls[d].label, rejected, st[i].firstBroken() != nil))
+				}
 				st[i].each(func(m *mtypeT) {
 					vals[i][0] = append(vals[i][0], m.t)
 					var f, a interface{}
@@ -245,6 +270,8 @@ func (m *mtypeT) gallina() string {
 		return fmt.Sprintf("MPlain %s %s", lib.GStr(m.name), gVal(m.val))
 	case mObject:
 		return fmt.Sprintf("MObject %s %s (Some %s) (Some %s)", lib.GStr(m.name), gVal(m.val), gVal(m.alloc), gVal(m.ctor))
+	case mBroken:
+		return fmt.Sprintf("MBroken %s %s", lib.GStr(m.name), gVal(m.val))
 	}
 	ms := make([]string, len(m.members))
 	for i, x := range m.members {
@@ -253,10 +280,46 @@ func (m *mtypeT) gallina() string {
 	return fmt.Sprintf("MSet %s %s %s", lib.GStr(m.name), gVal(m.val), lib.GList(ms, "str * mtype"))
 }
 
+// firstBroken: the member at which the resolution of the type (set) is rejected - the first one in the order of
+// typeSet.Resolve (members in the order of Types(), a nested set when its turn comes); nil: none
+func (m *mtypeT) firstBroken() *mtypeT {
+	if m.kind == mBroken {
+		return m
+	}
+	for _, x := range m.members {
+		if b := x.firstBroken(); b != nil {
+			return b
+		}
+	}
+	return nil
+}
+
+// loadersUntilBroken: the type-set loaders typeSet.Resolve has made when it reaches the broken member (all of them
+// when there is none)
+func (m *mtypeT) loadersUntilBroken() (n int, broken bool) {
+	if m.kind == mBroken {
+		return 0, true
+	}
+	if m.kind != mSet {
+		return 0, false
+	}
+	n = 1
+	for _, x := range m.members {
+		k, b := x.loadersUntilBroken()
+		n += k
+		if b {
+			return n, true
+		}
+	}
+	return n, false
+}
+
 func addOut(r string) string {
 	switch {
 	case r == "RBadLoader":
 		return "XA ABadLoader"
+	case strings.HasPrefix(r, "RErr (EOther"):
+		return "XA (AErr EOther)"
 	case strings.HasPrefix(r, "RErr "):
 		return "XA (AErr " + strings.TrimPrefix(r, "RErr ") + ")"
 	case strings.HasPrefix(r, "RFault"):
@@ -328,7 +391,8 @@ func (w *world) applyAddTypes(o opT) (res string) {
 		if m.kind != mSet || unresolvedSet(m.t) {
 			continue
 		}
-		w.lastHidden += m.nsets()
+		n, _ := m.loadersUntilBroken()
+		w.lastHidden += n
 		var walk func(m *mtypeT)
 		walk = func(m *mtypeT) {
 			i := 0
@@ -337,7 +401,7 @@ func (w *world) applyAddTypes(o opT) (res string) {
 				i++
 				x.t = v.(px.Type)
 				dynIndex[x.t] = x.val
-				if x.kind == mSet {
+				if x.kind == mSet && !unresolvedSet(x.t) {
 					walk(x)
 				}
 			})
@@ -407,6 +471,10 @@ func (w *refWorld) applyAdd(o opT, items []*mtypeT) string {
 	}
 	owner := map[*mtypeT]*refNode{}
 	for _, m := range items {
+		// a type whose own resolution is rejected ends the call before any member is bound; what was bound before stays
+		if m.firstBroken() != nil {
+			return "XA (AErr EOther)"
+		}
 		switch m.kind {
 		case mSet:
 			var hide func(parent *refNode, m *mtypeT)
